@@ -84,7 +84,6 @@ MUTANTS = {
   ("xml-datetime-not-always-typed", X, "                    datetime.datetime,\n                    float,", "                    float,"),
   ("xml-forget-lang", X, "                    if value.langtag is not None:\n                        subelem.attrib[_ns_xml(\"lang\")] = value.langtag", "                    pass"),
   ("xml-subtype-removes-all-types", X, "                attributes.remove((key, value))\n                rec_label = FULL_NAMES_MAP[value]\n                break", "                attributes[:] = [a for a in attributes if a[0] != PROV_TYPE]\n                rec_label = FULL_NAMES_MAP[value]\n                break"),
-  ("xml-person-maps-to-entity", "prov/constants.py", '    PROV["Person"]: PROV_AGENT,', '    PROV["Person"]: PROV_ENTITY,'),
   ("xml-int-as-long", X, "                        xsd_type = XSD_INT\n", "                        xsd_type = XSD_INTEGER\n"),
   ("xml-ref-for-non-reference-qname", X, "                    if attr not in PROV_ATTRIBUTE_QNAMES:\n                        subelem.attrib[_ns_xsi(\"type\")] = \"xsd:QName\"", "                    if attr not in PROV_ATTRIBUTE_QNAMES and attr != PROV_ROLE:\n                        subelem.attrib[_ns_xsi(\"type\")] = \"xsd:QName\""),
  ],
@@ -120,6 +119,8 @@ MUTANTS = {
   ("pn-lang-literal-without-tag-when-empty", M, "        if self._langtag:\n            # a language tag can only go with prov:InternationalizedString\n            return \"%s@%s\" % (", "        if self._langtag and self._value:\n            # a language tag can only go with prov:InternationalizedString\n            return \"%s@%s\" % ("),
  ],
  "C10": [
+  # symmetric in writer and reader (both consult PROV_BASE_CLS): invisible to the C02 round trip, C10s independent reader sees it
+  ("xml-person-maps-to-entity", "prov/constants.py", '    PROV["Person"]: PROV_AGENT,', '    PROV["Person"]: PROV_ENTITY,'),
   ("sym-json-swap-informed-informant-both-sides", [
      (J, "                attr_name = str(attr)\n", "                attr_name = {'prov:informed': 'prov:informant', 'prov:informant': 'prov:informed'}.get(str(attr), str(attr))\n"),
      (J, "                    attr = (\n                        PROV_ATTRIBUTES_ID_MAP[attr_name]", "                    attr_name = {'prov:informed': 'prov:informant', 'prov:informant': 'prov:informed'}.get(attr_name, attr_name)\n                    attr = (\n                        PROV_ATTRIBUTES_ID_MAP[attr_name]")]),
